@@ -359,9 +359,11 @@ def check(prog, res, tier):
         for d in datas:
             for c in cands:
                 if st.decide_eq0(c.lin - d.length()) is True:
-                    for n_, v_ in loc.items():
-                        if v_ is c:
-                            true_cursor.add(n_)
+                    if cur and mode == 'inv':
+                        # a loop-carried integer: the cursor of the walk (a local that merely holds the data length is not)
+                        for k_, g_ in heads[-1].data['gen'].items():
+                            if g_ is c and k_[0] == 'local':
+                                true_cursor.add(k_[1])
                     return []
         d, c = datas[0], cands[0]
         diff = c.lin - d.length()
